@@ -325,6 +325,24 @@ class C13(Prop):
             if rng.chance(1, 3):
                 pos = rng.below(len(body) + 1)
                 body[pos:pos] = "needle0".encode("utf-16-le")
+            # wide regexes with word boundaries (the hand-stepped wide DFA walk): "abc<digits>" in UTF-16 followed by
+            # a wide non-word character (match), by a wide letter (no boundary) or preceded by a wide character
+            for _ in range(rng.choice([0, 1, 1, 2, 3])):
+                pos = rng.below(len(body) + 1)
+                digits = rng.bytes(rng.range(1, 4), b"0123456789").decode()
+                kind = rng.below(4)
+                if kind <= 1:
+                    v = ("abc" + digits + " ").encode("utf-16-le")
+                elif kind == 2:
+                    v = ("abc" + digits + "q").encode("utf-16-le") + b"##"
+                else:
+                    v = ("zabc" + digits + ".").encode("utf-16-le")
+                body[pos:pos] = b"##" + v
+            for _ in range(rng.below(3)):
+                pos = rng.below(len(body) + 1)
+                body[pos:pos] = rng.choice([b" needle2 ", b"7needle2", b"12needle2 ", b".needle2x", b" NEEDLE1 ",
+                                            "needle1 ".encode("utf-16-le"), "needle0x".encode("utf-16-le"),
+                                            "QZX ".encode("utf-16-le"), b"abcneedle0123", b"needle1 abc 7x"])
             jobs.append({"input": bytes(body).hex()})
         if rng.chance(1, 3) and njobs >= 2:
             jobs[-1] = dict(jobs[0])            # the same input twice
@@ -347,6 +365,26 @@ class C13(Prop):
         lines.append('rule r2 { strings: $r = /[a-j]{3}[0-9]{3,}[a-j]/ condition: #r > 1 }')
         lines.append('rule r3 { strings: $r = /(needle2|QZX)[^n]{1,20}needle/ condition: $r }')
         expect["r3"] = ("re", "(needle2|QZX)[^n]{1,20}needle")
+        # wide + word boundaries: the custom wide DFA walk of the validators (matcher/validator/dfa.rs)
+        lines.append('rule w0 { strings: $r = /abc[0-9]+\\b/ wide condition: $r }')
+        expect["w0"] = ("re_pos", "a\\x00b\\x00c\\x00([0-9]\\x00)+[ .]\\x00")   # sufficient, not necessary
+        lines.append('rule w1 { strings: $r = /needle0\\B/ wide ascii condition: $r }')
+        lines.append('rule w2 { strings: $r = /\\bQzX\\b/ wide nocase condition: #r >= 1 }')
+        lines.append('rule w3 { strings: $r = /\\Babc[0-9]{1,3}\\b/ wide condition: #r > 0 }')
+        # greedy / non-greedy atomized regexes: reverse and forward validators around the atom
+        lines.append('rule g0 { strings: $r = /[a-j]+needle0[0-9]*/ condition: $r }')
+        expect["g0"] = ("re", "[a-j]+needle0[0-9]*")
+        lines.append('rule g1 { strings: $r = /needle1.{1,12}?[0-9]x/ condition: $r }')
+        expect["g1"] = ("re", "needle1.{1,12}?[0-9]x")
+        lines.append('rule g2 { strings: $r = /[0-9]{2}needle2/ fullword condition: $r }')
+        lines.append('rule g3 { strings: $r = /(abc|needle2)[0-9 ]+?needle/ nocase condition: #r > 0 }')
+        # fullword / nocase / wide+ascii text strings
+        lines.append('rule f0 { strings: $a = "needle2" fullword condition: $a }')
+        expect["f0"] = ("re", "(?<![A-Za-z0-9])needle2(?![A-Za-z0-9])")
+        lines.append('rule f1 { strings: $a = "needle1" nocase fullword wide ascii condition: $a }')
+        # regexes in conditions (`matches`): meta::Regex with its own cache pool
+        lines.append('rule mt { condition: ext_s matches /^x*ab/ or ext_s matches /BA$/i }')
+        expect["mt"] = ("matches",)
         lines.append('rule ref0 { condition: t0 and not t1 }')
         lines.append('private rule pv { strings: $a = "needle2" condition: $a }')
         lines.append('rule ref1 { condition: pv or c0 }')
@@ -661,8 +699,14 @@ class C13(Prop):
                                               glist(seq), glist(par))
 
     # ---------------------------------------------------------------- conc
-    def expected(self, e, data, syms):
+    def expected(self, e, data, syms, job=None):
+        """True / False, or None when nothing is known by construction"""
         k = e[0]
+        if k == "re_pos":
+            return True if re.search(e[1].encode(), data) else None
+        if k == "matches":
+            v = bytes.fromhex({s["name"]: s for s in syms}["ext_s"]["bytes"])
+            return re.search(b"^x*ab", v) is not None or re.search(b"BA$", v, re.I) is not None
         if k == "in":
             return bytes.fromhex(e[1]) in data
         if k == "in_nocase":
@@ -696,6 +740,8 @@ class C13(Prop):
             n = len(case["jobs"])
             if len(oracle) != n or len(par) != n or len(again) != n:
                 return (False, False, 0)
+            if any("panic" in r for j in range(n) for r in [oracle[j], again[j]] + list(par[j])):
+                return (False, False, 0)
             same = all(again[j] == oracle[j] and len(par[j]) == case["rounds"] and all(r == oracle[j] for r in par[j])
                        for j in range(n))
             spec = same
@@ -713,7 +759,8 @@ class C13(Prop):
                     for name, e in case.get("expect", {}).items():
                         if e[0] == "count" and prm.get("string_max_nb_matches", 1000) < 1000:
                             continue      # the count saturates at the limit (C14)
-                        if (name in got) != self.expected(e, data, syms):
+                        want = self.expected(e, data, syms, job)
+                        if want is not None and (name in got) != want:
                             spec = False
             return (same, spec, 0)
         except (KeyError, ValueError, TypeError, IndexError):
